@@ -1,0 +1,53 @@
+//go:build verif
+
+// Specification functions used by the contracts in zz_contracts_verif.go.
+// They are written from the WebP container specification (section "Canvas
+// assembling") and the reference integer arithmetic it points to, not from
+// the code in this package, and are only compiled under the verif build tag.
+
+package animation
+
+import "image/color"
+
+// specBlend is non-premultiplied "source over destination":
+//
+//	blend.A   = src.A + dst.A*(1 - src.A/255)
+//	blend.RGB = (src.RGB*src.A + dst.RGB*dst.A*(1 - src.A/255)) / blend.A
+//
+// evaluated with the reference's integer approximation
+// dst_factor_a = dst.A*(256-src.A) >> 8, scale = 2^24 / blend.A. Where the
+// formula is exact (src fully transparent or opaque, destination fully
+// transparent) the exact value is specified.
+func specBlend(src, dst color.NRGBA) color.NRGBA {
+	if src.A == 0 {
+		return dst
+	}
+	if src.A == 255 || dst.A == 0 {
+		return src
+	}
+	sa := uint32(src.A)
+	da := (uint32(dst.A) * (256 - sa)) >> 8
+	ba := sa + da
+	scale := uint32(1<<24) / ba
+	return color.NRGBA{
+		R: uint8((uint32(src.R)*sa + uint32(dst.R)*da) * scale >> 24),
+		G: uint8((uint32(src.G)*sa + uint32(dst.G)*da) * scale >> 24),
+		B: uint8((uint32(src.B)*sa + uint32(dst.B)*da) * scale >> 24),
+		A: uint8(ba),
+	}
+}
+
+// specBlendNoOverflow states the side conditions under which the integer
+// formula above means what it says: the blended alpha fits a byte, and no
+// intermediate product leaves 32 bits or exceeds a byte after scaling.
+func specBlendNoOverflow(src, dst color.NRGBA, sc, dc uint8) bool {
+	sa := uint64(src.A)
+	da := (uint64(dst.A) * (256 - sa)) >> 8
+	ba := sa + da
+	if ba == 0 || ba > 255 {
+		return false
+	}
+	scale := uint64(1<<24) / ba
+	v := (uint64(sc)*sa + uint64(dc)*da) * scale
+	return v < 1<<32 && v>>24 <= 255
+}
